@@ -3745,7 +3745,7 @@ class BaseParser:
         """Appends an empty string in subprocess mode to the argument list."""
         p3 = p[3]
         node = ast.const_str(s="", lineno=p3.lineno, col_offset=p3.lexpos + 1)
-        p[2][-1].elts.append(node)
+        self._append_subproc_bang_node(p, node)
 
     def _append_subproc_bang(self, p):
         """Appends the part between ! and the ) or ] in subprocess mode to the
@@ -3756,7 +3756,28 @@ class BaseParser:
         end = (p5.lineno, p5.lexpos)
         s = self._source_slice(beg, end).strip()
         node = ast.const_str(s=s, lineno=beg[0], col_offset=beg[1])
-        p[2][-1].elts.append(node)
+        self._append_subproc_bang_node(p, node)
+
+    def _append_subproc_bang_node(self, p, node):
+        """Appends the macro argument to the last command of the pipeline."""
+        last = p[2][-1]
+        if isinstance(last, ast.List):
+            last.elts.append(node)
+        elif isinstance(last, ast.BinOp):
+            # argument lists holding globs or @() are built by concatenation
+            lineno, col = node.lineno, node.col_offset
+            tail = empty_list(lineno=lineno, col=col)
+            tail.elts.append(node)
+            new = binop(last, ast.Add(), tail, lineno=lineno, col=col)
+            if hasattr(last, "_xenvvars"):
+                new._xenvvars = last._xenvvars
+            p[2][-1] = new
+        else:
+            # e.g. ``cmd & !``: there is no command the macro could belong to
+            self._set_error(
+                "subprocess macro '!' must follow a command",
+                self.currloc(lineno=node.lineno, column=node.col_offset),
+            )
 
     def p_subproc_atom_uncaptured(self, p):
         """subproc_atom : dollar_lbracket_tok subproc RBRACKET"""
